@@ -2,6 +2,6 @@
 (* Model constants for GraphLaws that a .cfg file cannot express (tuples). *)
 EXTENDS GraphLaws
 ct_quick    == {<<"a", 5, "b">>, <<"b", 5, "a">>, <<"a", 5, "g">>}
-ct_thorough == {<<"a", 5, "b">>, <<"b", 5, "a">>, <<"a", 5, "a">>, <<"a", 5, "g">>, <<"g", 5, "b">>, <<"b", 10, "a">>}
+ct_thorough == {<<"a", 5, "b">>, <<"b", 5, "a">>, <<"a", 5, "a">>, <<"a", 5, "g">>, <<"g", 5, "b">>}
 ct_assoc    == {<<"a", 5, "b">>, <<"b", 5, "a">>, <<"a", 5, "g">>}
 =============================================================================
